@@ -4,7 +4,7 @@
 # property against that tree (VERIF_REPO), prints the verdict lines, removes the worktree. /repo itself is never touched.
 set -u
 N=$1; shift
-P=${N%%_*}
+P=${N:0:3}
 cd /verif
 WT=/tmp/seedeval-$N-$$
 git -C /repo worktree add -f --detach $WT HEAD -q || exit 2
